@@ -47,6 +47,10 @@ class SliceTransformer(converter.Base):
     if isinstance(s, (ast.Tuple)):
       # multi-dimensional indices are not supported
       return None
+    if not isinstance(target.value, (ast.Name, ast.Attribute)):
+      # the container is itself an item (`x[i][j] = v`, already lowered to
+      # ag__.get_item(x, i)): it cannot be rebound, the store stays in place
+      return None
 
     template = """
       target = ag__.set_item(target, key, item)
@@ -82,6 +86,9 @@ class SliceTransformer(converter.Base):
       return None
     s = target.slice
     if isinstance(s, (ast.Tuple, ast.Call)):
+      return None
+    if not isinstance(target.value, (ast.Name, ast.Attribute)):
+      # see _process_single_assignment
       return None
     if not isinstance(op, (ast.Mult, ast.Add, ast.Sub, ast.Div, ast.Pow)):
       return None
